@@ -302,8 +302,58 @@ func run(e *core.Env) {
 		}
 		e.Fault("reorder")
 	}
+	// The session is duplex: in half of the end-to-end runs the receiver also sends priority
+	// frames back while it works through the stream. Its own out key never changes in the run, so
+	// none of its priority numbers may repeat - also not when the *peer's* sequence wraps - and
+	// each of its frames unseals once at the other side, not twice.
+	duplex := !link && tp.Chance(1, 2)
+	type backFrame struct {
+		seq  uint32
+		key  string
+		data []byte
+	}
+	var back []backFrame
+	rh := &state.EncryptionSessionTestHelper{EncryptionSession: rSess.Encryption()}
+	sendBack := func() {
+		f, err := R.Inst.Builder.NewFrameV1(R.IP, S.IP, frame.RouterCtrl, nil, []byte("priority frame of the receiver ........"), nil)
+		if err != nil {
+			e.Infra("frame: %v", err)
+		}
+		if err := f.Seal(rSess); err != nil {
+			e.Fail("seal-failed-or-panicked", "the receiver cannot seal a priority frame of its own: %v", err)
+		}
+		d, _ := f.FrameDataWithMargins(0, 0)
+		bf := backFrame{seq: f.SequenceNum(), key: string(rh.OutKey()), data: append([]byte(nil), d...)}
+		f.ReturnToPool()
+		for _, o := range back {
+			if o.seq == bf.seq && o.key == bf.key {
+				e.Fail("sequence-number-reused-under-one-key/reverse-direction",
+					"the receiving router sealed two priority frames of its own with number %d under one unchanged out key (after %d own frames; the peer's sequence wrapped: %v)", bf.seq, len(back), rolled)
+			}
+		}
+		back = append(back, bf)
+	}
+	unsealAtS := func(bf backFrame) error {
+		ps := S.Inst.Builder.GetPooledSlice(len(bf.data) + 28)
+		copy(ps[12:], bf.data)
+		f, err := S.Inst.Builder.ParseFrame(ps[12:12+len(bf.data)], ps, 12)
+		if err != nil {
+			return err
+		}
+		defer f.ReturnToPool()
+		return f.Unseal(sSess)
+	}
+	if duplex {
+		e.Probe("duplex_run")
+		for k := 0; k < 3; k++ {
+			sendBack()
+		}
+	}
 	rEpoch := 0
 	for i, sf := range stream {
+		if duplex && tp.Chance(1, 6) {
+			sendBack()
+		}
 		if !sf.prio && sf.epoch == 1 && rEpoch == 0 {
 			rEpoch = 1 // the first regular frame of the new epoch moves the receiver on
 		}
@@ -331,6 +381,22 @@ func run(e *core.Env) {
 		}
 		if !want {
 			e.Probe("old_epoch_frame_refused_after_rollover")
+		}
+	}
+	if duplex {
+		for k := 0; k < 3; k++ {
+			sendBack()
+		}
+		// The receiver's frames arrive at the (wrapped) sender: each once.
+		for i, bf := range back {
+			if err := unsealAtS(bf); err != nil {
+				e.Fail("fresh-frame-refused/reverse-direction", "priority frame %d of the receiving router (number %d) does not unseal at its peer: %v", i, bf.seq, err)
+			}
+		}
+		for _, i := range []int{0, len(back) / 2, len(back) - 1} {
+			if err := unsealAtS(back[i]); err == nil {
+				e.Fail("dup-accepted/reverse-direction", "priority frame %d of the receiving router (number %d) unseals a second time at its peer (peer's own sequence wrapped: %v)", i, back[i].seq, rolled)
+			}
 		}
 	}
 	// ---- at the end both are in the same epoch: one more frame of each class ----
@@ -363,6 +429,36 @@ func run(e *core.Env) {
 		if err := deliver(sf); err != nil {
 			e.Fail("sender-and-receiver-out-of-sync-at-end", "after the run a fresh frame (priority=%v number %d) does not unseal: %v (sender rolled=%v)", prio, sf.seq, err, rolled)
 		}
+	}
+	// ---- a second wrap on the same session (a third of the runs that wrapped once) ----
+	// Sequential and in order: whatever the first roll-over left behind on either side meets
+	// the next one.
+	if rolled && tp.Chance(1, 3) {
+		sh.ReglSetOut(0xFFFFFFFF - uint32(2+tp.Intn(20)))
+		sealOne := func(k int) *sealedFrame {
+			if link {
+				inner, _ := S.Inst.Builder.NewFrameV1(S.IP, R.IP, frame.RouterPing, nil, []byte(fmt.Sprintf("second wrap %d", k)), nil)
+				d, _ := inner.FrameDataWithMargins(peering.FrameOffset, peering.FrameOverhead)
+				lf := peering.LinkFrame(d)
+				if err := lf.Seal(sEnc); err != nil {
+					e.Fail("seal-failed-or-panicked", "seal around the second wrap: %v", err)
+				}
+				return &sealedFrame{seq: lf.SequenceNum(), data: append([]byte(nil), d...)}
+			}
+			f, _ := S.Inst.Builder.NewFrameV1(S.IP, R.IP, frame.NetworkTraffic, nil, []byte(fmt.Sprintf("second wrap frame %d ..........", k)), nil)
+			if err := f.Seal(sSess); err != nil {
+				e.Fail("seal-failed-or-panicked", "seal around the second wrap: %v", err)
+			}
+			d, _ := f.FrameDataWithMargins(0, 0)
+			return &sealedFrame{seq: f.SequenceNum(), data: append([]byte(nil), d...)}
+		}
+		for k := 0; k < 45; k++ {
+			sf := sealOne(k)
+			if err := deliver(sf); err != nil {
+				e.Fail("fresh-frame-refused/in-order/second-wrap", "frame %d around the second wrap of one session (number %d) does not unseal: %v", k, sf.seq, err)
+			}
+		}
+		e.Probe("second_wrap_on_one_session")
 	}
 	if rolled && !link && len(e1p) > 0 {
 		e.Probe("prio_reset_after_rollover")
